@@ -332,3 +332,130 @@ def poly_term(p, y):
     for d in range(max(p) if p else 0, -1, -1):
         acc = acc * y + RV(Fraction(p.get(d, 0)))
     return acc
+
+
+# ---- exact multivariate rational functions -------------------------------------------------------------------------------------
+def _pmul(a, b):
+    out = {}
+    for m1, x in a.items():
+        for m2, y in b.items():
+            d = dict(m1)
+            for v, e in m2:
+                d[v] = d.get(v, 0) + e
+            k = tuple(sorted(d.items()))
+            out[k] = out.get(k, 0) + x * y
+    return {k: v for k, v in out.items() if v}
+
+
+def _padd(a, b, s=1):
+    out = dict(a)
+    for k, v in b.items():
+        out[k] = out.get(k, 0) + s * v
+    return {k: v for k, v in out.items() if v}
+
+
+def ratfun_of(e):
+    """Exact (numerator, denominator, vars) of a z3 real term built from +, -, *, /, integer powers, numerals and real constants:
+    polynomials are {monomial: Fraction} with monomial = sorted tuple of (var name, exponent).  None for any other structure."""
+    memo, names = {}, {}
+    ONE = {(): Fraction(1)}
+
+    def go(t):
+        k = t.get_id()
+        if k not in memo:
+            memo[k] = go1(t)
+        return memo[k]
+
+    def go1(t):
+        if z3.is_rational_value(t):
+            return {(): Fraction(t.numerator_as_long(), t.denominator_as_long())} if t.numerator_as_long() else {}, ONE
+        if z3.is_int_value(t):
+            return ({(): Fraction(t.as_long())} if t.as_long() else {}), ONE
+        if z3.is_const(t) and t.decl().kind() == z3.Z3_OP_UNINTERPRETED:
+            names[t.decl().name()] = t
+            return {((t.decl().name(), 1),): Fraction(1)}, ONE
+        kind, ch = t.decl().kind(), t.children()
+        if kind == z3.Z3_OP_TO_REAL:
+            return go(ch[0])
+        ps = [go(c) for c in ch]
+        if any(p is None for p in ps):
+            return None
+        if kind in (z3.Z3_OP_ADD, z3.Z3_OP_SUB):
+            n, d = ps[0]
+            for pn, pd in ps[1:]:
+                s = 1 if kind == z3.Z3_OP_ADD else -1
+                if pd == d:
+                    n = _padd(n, pn, s)
+                else:
+                    n, d = _padd(_pmul(n, pd), _pmul(pn, d), s), _pmul(d, pd)
+            return n, d
+        if kind == z3.Z3_OP_UMINUS:
+            return {k: -v for k, v in ps[0][0].items()}, ps[0][1]
+        if kind == z3.Z3_OP_MUL:
+            n, d = ONE, ONE
+            for pn, pd in ps:
+                n, d = _pmul(n, pn), _pmul(d, pd)
+            return n, d
+        if kind == z3.Z3_OP_DIV:
+            (an, ad), (bn, bd) = ps
+            if not bn:
+                return None
+            return _pmul(an, bd), _pmul(ad, bn)
+        if kind == z3.Z3_OP_POWER:
+            (an, ad), (bn, bd) = ps
+            if bd != ONE or set(bn) - {()}:
+                return None
+            ex = bn.get((), Fraction(0))
+            if ex.denominator != 1 or ex < 0:
+                return None
+            n, d = ONE, ONE
+            for _ in range(int(ex)):
+                n, d = _pmul(n, an), _pmul(d, ad)
+            return n, d
+        return None
+    r = go(z3.simplify(e))
+    if r is None:
+        return None
+    n, d = r
+    # scale to integer coefficients (keeps the solver's numerals small) and drop a common monomial/numeric content
+    from math import gcd
+    def content(p):
+        den = 1
+        for v in p.values():
+            den = den * v.denominator // gcd(den, v.denominator)
+        g = 0
+        for v in p.values():
+            g = gcd(g, int(v * den))
+        return Fraction(g or 1, den)
+    cn, cd = content(n) if n else Fraction(1), content(d)
+    n = {k: v / cn for k, v in n.items()}
+    d = {k: v / cd for k, v in d.items()}
+    return n, d, cn / cd, names
+
+
+def ratfun_term(p, names):
+    acc = []
+    for mono, c in p.items():
+        t = RV(Fraction(c))
+        for v, e in mono:
+            for _ in range(e):
+                t = t * names[v]
+        acc.append(t)
+    return z3.Sum(acc) if acc else z3.RealVal(0)
+
+
+def positive_ratfun(e):
+    """A condition equivalent to e > 0 (wherever e's denominators are non-zero) with all divisions cleared: the solver gets two
+    polynomial sign conditions instead of a rational function.  Falls back to e > 0 itself when e is not a rational function."""
+    r = ratfun_of(e)
+    if r is None:
+        return e > 0
+    n, d, scale, names = r
+    if not n:
+        return z3.BoolVal(False)
+    N, Dn = ratfun_term(n, names), ratfun_term(d, names)
+    if set(d) == {()}:
+        return (N > 0) if scale * d[()] > 0 else (N < 0)
+    if scale < 0:
+        N = -N
+    return z3.Or(z3.And(Dn > 0, N > 0), z3.And(Dn < 0, N < 0))
